@@ -21,7 +21,13 @@ def build(forest, kind):
         return T.build_api(forest, False)
     if kind == 'api-xml':
         return T.build_api(forest, True)
+    if kind == 'api-xhtml':
+        return T.build_api(with_ns(forest, (None, 'http://www.w3.org/1999/xhtml')), True)
     return T.build_parsed(forest, kind)
+
+
+def with_ns(forest, ns):
+    return tuple((n[0], n[1], n[2], with_ns(n[3], ns), ns) if n[0] == 'e' else n for n in forest)
 
 
 def atoms_of(lst, out=None):
